@@ -2,6 +2,10 @@
 use std::io::{BufRead, Write};
 
 mod frame;
+thread_local! { pub static LAST_PANIC: std::cell::RefCell<String> = std::cell::RefCell::new(String::new()); }
+pub fn last_panic() -> String { LAST_PANIC.with(|p| p.borrow().clone()) }
+mod codec;
+mod gen_login;
 
 pub fn hex(b: &[u8]) -> String {
     let mut s = String::with_capacity(b.len() * 2);
@@ -26,6 +30,7 @@ fn handle(ws: &[&str]) -> String {
         ["wframe", exp, dir, len, fill] => frame::wframe(exp, dir, len.parse().unwrap_or(0), fill.parse().unwrap_or(0)),
         ["rframe", exp, dir, api, hdr, len, fill, extra] => frame::rframe(exp, dir, api, hdr, len.parse().unwrap_or(0), fill.parse().unwrap_or(0), extra.parse().unwrap_or(0)),
         ["seq", exp, dir, api, lens] => frame::seq(exp, dir, api, lens),
+        ["codec", lib, dir, hex] => codec::codec(lib, dir, hex),
         _ => "bad-op".into(),
     }
 }
@@ -34,11 +39,16 @@ fn main() {
     let stdin = std::io::stdin();
     let stdout = std::io::stdout();
     let mut out = std::io::BufWriter::new(stdout.lock());
-    std::panic::set_hook(Box::new(|_| {}));
+    std::panic::set_hook(Box::new(|info| {
+        let loc = info.location().map(|l| format!("{}:{}", l.file().rsplit('/').next().unwrap_or(""), l.line())).unwrap_or_default();
+        let msg = if let Some(s) = info.payload().downcast_ref::<&str>() { s.to_string() } else if let Some(s) = info.payload().downcast_ref::<String>() { s.clone() } else { String::new() };
+        let msg: String = msg.split_whitespace().collect::<Vec<_>>().join("_");
+        LAST_PANIC.with(|p| *p.borrow_mut() = format!("{loc} {}", &msg[..msg.len().min(120)]));
+    }));
     for line in stdin.lock().lines() {
         let line = line.unwrap();
         let ws: Vec<&str> = line.split_ascii_whitespace().collect();
-        let r = std::panic::catch_unwind(|| handle(&ws)).unwrap_or_else(|_| "abort panic".to_string());
+        let r = std::panic::catch_unwind(|| handle(&ws)).unwrap_or_else(|_| format!("abort panic {}", last_panic()));
         writeln!(out, "{r}").unwrap();
         out.flush().unwrap();
     }
